@@ -1,0 +1,133 @@
+// Verification hooks for the Kademlia event loop (cfg(feature = "verif") only, adds code only):
+// a public wrapper that builds and runs the crate-private `Kademlia` object, and a probe to which
+// the loop reports every action the query engine yields and a snapshot of the glue maps each time
+// it is about to wait in `select!`.
+
+use super::*;
+
+use std::sync::Arc as StdArc;
+
+/// Snapshot of the glue state, taken when the loop is about to wait for the next event.
+#[derive(Debug, Clone, Default)]
+pub struct VerifKadDump {
+    /// `pending_dials`: peer and `(kind, query)` of every queued action, in queue order.
+    /// kind: 0 `SendFindNode`, 1 `SendPutValue`, 2 `SendAddProvider`.
+    pub pending_dials: Vec<(PeerId, Vec<(u8, usize)>)>,
+    /// `peers[..].pending_actions`: `(substream id, kind, query)`.
+    pub peers: Vec<(PeerId, Vec<(usize, u8, usize)>)>,
+    /// `pending_substreams`.
+    pub pending_substreams: Vec<(usize, PeerId)>,
+    /// Futures in flight in the executor.
+    pub executor_len: usize,
+    /// Live queries.
+    pub queries: Vec<query::VerifQueryState>,
+}
+
+/// One report of the loop.
+#[derive(Debug, Clone)]
+pub enum VerifProbeEntry {
+    /// `QueryEngine::next_action` returned an action. kind: 0 SendMessage, 1 FindNodeQuerySucceeded,
+    /// 2 PutRecordToFoundNodes, 3 PutRecordQuerySucceeded, 4 AddProviderToFoundNodes,
+    /// 5 AddProviderQuerySucceeded, 6 GetRecordQueryDone, 7 GetProvidersQueryDone, 8 QueryFailed,
+    /// 9 GetRecordPartialResult, 10 QuerySucceeded.
+    Action { kind: u8, query: usize, peers: Vec<PeerId> },
+    /// The engine is drained; the loop waits in `select!`.
+    AtSelect(VerifKadDump),
+}
+
+/// Shared log of reports.
+#[derive(Clone, Default)]
+pub struct VerifProbe {
+    inner: StdArc<parking_lot::Mutex<Vec<VerifProbeEntry>>>,
+}
+
+impl VerifProbe {
+    pub fn take(&self) -> Vec<VerifProbeEntry> {
+        std::mem::take(&mut *self.inner.lock())
+    }
+}
+
+fn action_kind(action: &PeerAction) -> (u8, usize) {
+    match action {
+        PeerAction::SendFindNode(query) => (0, query.0),
+        PeerAction::SendPutValue(query, _) => (1, query.0),
+        PeerAction::SendAddProvider(query, _) => (2, query.0),
+    }
+}
+
+impl Kademlia {
+    pub(super) fn verif_note_action(&mut self, action: &QueryAction) {
+        let Some(probe) = &self.verif_probe else { return };
+        let (kind, query, peers) = match action {
+            QueryAction::SendMessage { query, peer, .. } => (0, query.0, vec![*peer]),
+            QueryAction::FindNodeQuerySucceeded { query, peers, .. } =>
+                (1, query.0, peers.iter().map(|p| p.peer).collect()),
+            QueryAction::PutRecordToFoundNodes { query, peers, .. } =>
+                (2, query.0, peers.iter().map(|p| p.peer).collect()),
+            QueryAction::PutRecordQuerySucceeded { query, .. } => (3, query.0, Vec::new()),
+            QueryAction::AddProviderToFoundNodes { query, peers, .. } =>
+                (4, query.0, peers.iter().map(|p| p.peer).collect()),
+            QueryAction::AddProviderQuerySucceeded { query, .. } => (5, query.0, Vec::new()),
+            QueryAction::GetRecordQueryDone { query_id } => (6, query_id.0, Vec::new()),
+            QueryAction::GetProvidersQueryDone { query_id, .. } => (7, query_id.0, Vec::new()),
+            QueryAction::QueryFailed { query } => (8, query.0, Vec::new()),
+            QueryAction::GetRecordPartialResult { query_id, record } =>
+                (9, query_id.0, vec![record.peer]),
+            QueryAction::QuerySucceeded { query } => (10, query.0, Vec::new()),
+        };
+        probe.inner.lock().push(VerifProbeEntry::Action { kind, query, peers });
+    }
+
+    pub(super) fn verif_at_select(&mut self) {
+        let Some(probe) = &self.verif_probe else { return };
+        let dump = VerifKadDump {
+            pending_dials: self
+                .pending_dials
+                .iter()
+                .map(|(peer, actions)| (*peer, actions.iter().map(action_kind).collect()))
+                .collect(),
+            peers: self
+                .peers
+                .iter()
+                .map(|(peer, context)| {
+                    (
+                        *peer,
+                        context
+                            .pending_actions
+                            .iter()
+                            .map(|(id, action)| {
+                                let (kind, query) = action_kind(action);
+                                (id.verif_as_usize(), kind, query)
+                            })
+                            .collect(),
+                    )
+                })
+                .collect(),
+            pending_substreams: self
+                .pending_substreams
+                .iter()
+                .map(|(id, peer)| (id.verif_as_usize(), *peer))
+                .collect(),
+            executor_len: self.executor.verif_len(),
+            queries: self.engine.verif_queries(),
+        };
+        probe.inner.lock().push(VerifProbeEntry::AtSelect(dump));
+    }
+}
+
+/// The crate-private `Kademlia` object behind a public name.
+pub struct VerifKademlia(Kademlia);
+
+impl VerifKademlia {
+    /// `Kademlia::new` plus the probe.
+    pub fn new(service: TransportService, config: Config, probe: VerifProbe) -> Self {
+        let mut kademlia = Kademlia::new(service, config);
+        kademlia.verif_probe = Some(probe);
+        Self(kademlia)
+    }
+
+    /// The unmodified event loop.
+    pub async fn run(self) -> crate::Result<()> {
+        self.0.run().await
+    }
+}
